@@ -93,7 +93,7 @@ def check_case(case):
             break
         res2 = ref_result(case, compat=frozenset(cur))
         if obs.clarkify(obs.flat_ref(res2.root)) == got:
-            return Verdict("known", finding="C01-" + "+".join(sorted(cur)), nontrivial=nontrivial, sig=sig, classes=classes)
+            return Verdict("known", finding="+".join("C01-" + x for x in sorted(cur)), nontrivial=nontrivial, sig=sig, classes=classes)
         more = {t[4:] for t in res2.trace if t.startswith("dev:")} & COMPAT
         more = {s for s in more if active("C01-" + s)}
         if more <= cur:
@@ -160,6 +160,10 @@ PREFIXES = [
     ("<math><annotation-xml>", None), ("<applet>", None), ("<a><table>", None), ("<b><table><td>", None), ("<form>", None), ("<table><form>", None),
     ("<h1>", None), ("<nobr>", None), ("<b><b><b><b>", None), ("<p><b><i><u><s><em>", None), ("<object><table>", None), ("<noscript>", None), ("<xmp>", None),
     ("<table><tr><td><table>", None), ("<body><table><td><p><a>", None),
+    ("<div><table><caption>", None), ("<div><table><tr><td>", None), ("<ul><li><table><tr><td>", None), ("<div><button><p>", None), ("<div><applet>", None),
+    ("<div><marquee><p>", None), ("<div><object><p>", None), ("<p><svg><foreignObject>", None), ("<div><math><mi>", None), ("<div><svg><title>", None),
+    ("<div><select>", None), ("<p><b><b><b><b>", None), ("<p><b a=1><b a=1><b a=1><b a=1>", None), ("<p><b><b><b>", None), ("<ol><li><div><table><th>", None),
+    ("<a><b><table><caption>", None), ("<dl><dt><svg><desc>", None), ("<form><table><tr>", None), ("<h1><table><tbody>", None),
     ("", "table"), ("", "tbody"), ("", "tr"), ("", "td"), ("", "select"), ("", "colgroup"), ("", "caption"), ("", "head"), ("", "html"), ("", "frameset"), ("", "body"),
     ("<tr>", "table"), ("<td>", "tr"), ("<option>", "select"), ("<b>", "td"), ("<svg>", "div"), ("<table>", "td"), ("<p>", "button"), ("<li>", "ul"),
 ]
@@ -176,15 +180,31 @@ def token_alphabet():
     return al
 
 
+CORE_NAMES = """p div b a i table tr td th caption tbody colgroup col select option optgroup li ul dd dt h1 button form svg math mi desc br input textarea
+script style title head body html frameset frame nobr applet ruby rt span pre hr img noscript""".split()
+
+
+def core_alphabet():
+    al = []
+    for n in CORE_NAMES:
+        al.append("<%s>" % n)
+        al.append("</%s>" % n)
+    al += ["a", " ", "\x00", "<!--c-->", "<!DOCTYPE html>", "<input type=hidden>", "<font color=red>", "<p a=1>", "&amp;"]
+    return al
+
+
 def shards(tier):
     quick = tier == "quick"
     out = []
     profs = soup.PROFILE_NAMES
     for i in range(10):
-        out.append({"kind": "soup", "profile": profs[i % len(profs)], "n": 1500 if quick else 60000})
+        out.append({"kind": "soup", "profile": profs[i % len(profs)], "n": 3000 if quick else 60000})
     for i in range(12):
-        out.append({"kind": "pairs", "part": i, "of": 12, "stride": 24 if quick else 1})
+        out.append({"kind": "pairs", "part": i, "of": 12, "stride": 1, "core": True})     # every pair over the core alphabet, both tiers
+    for i in range(12):
+        out.append({"kind": "pairs", "part": i, "of": 12, "stride": 16 if quick else 1, "core": False})
     out.append({"kind": "determinism", "n": 300 if quick else 5000})
+    out.append({"kind": "quirks"})
     return out
 
 
@@ -201,7 +221,7 @@ def run_shard(desc, seed, tier):
             acc.add(case, check_case(case))
         drive(strat, fn, desc["n"], seed)
     elif kind == "pairs":
-        al = token_alphabet()
+        al = core_alphabet() if desc.get("core") else token_alphabet()
         mine = PREFIXES[desc["part"]::desc["of"]]
         stride = desc["stride"]
         off = seed % stride
@@ -216,8 +236,30 @@ def run_shard(desc, seed, tier):
                     case = {"text": pre + a + b, "container": container, "scripting": bool(k & 64)}
                     acc.add(case, check_case(case))
                     n += 1
-        acc.extra["mode_pair_cases"] = n
-        acc.exhaustive = stride == 1
+        acc.extra["mode_pair_cases_core" if desc.get("core") else "mode_pair_cases_full_alphabet"] = n
+    elif kind == "quirks":
+        # the quirks tables, observed through the tree: in quirks mode <table> does not close an open p
+        pubs = list(T.QUIRKS_PUBLIC_PREFIXES) + list(T.QUIRKS_PUBLIC_EXACT) + list(T.LIMITED_QUIRKS_PREFIXES) + \
+            ["-//w3c//dtd html 4.01 frameset//", "-//w3c//dtd html 4.01 transitional//", "-//W3C//DTD HTML 4.01//EN", "-//W3C//DTD XHTML 1.0 Strict//EN", "", "x"]
+        n = 0
+        for pub in pubs:
+            for variant in (pub, pub.upper(), pub + "EN", pub + "x", pub[:-1], "x" + pub):
+                for sysid in (None, "", "x", T.QUIRKS_SYSTEM_EXACT, T.QUIRKS_SYSTEM_EXACT.upper(), "http://www.w3.org/TR/html4/loose.dtd"):
+                    for name in ("html", "HTML", "htm"):
+                        if name != "html" and sysid not in (None, "x"):
+                            continue
+                        if '"' in variant:
+                            continue
+                        d = '<!DOCTYPE %s PUBLIC "%s"%s>' % (name, variant, "" if sysid is None else ' "%s"' % sysid)
+                        case = {"text": d + "<p><table>", "container": None, "scripting": False}
+                        acc.add(case, check_case(case))
+                        n += 1
+        for sysid in ("", "x", T.QUIRKS_SYSTEM_EXACT, "about:legacy-compat"):
+            for d in ('<!DOCTYPE html SYSTEM "%s">' % sysid, "<!DOCTYPE html>", "<!DOCTYPE>", "<!DOCTYPE html PUBLIC>", ""):
+                case = {"text": d + "<p><table>", "container": None, "scripting": False}
+                acc.add(case, check_case(case))
+                n += 1
+        acc.extra["quirks_table_cases"] = n
     else:
         # determinism: same process twice + another hash seed in a subprocess
         import hashlib
